@@ -65,6 +65,8 @@ func dispatch(rp replayFile, verbose bool) bool {
 		replayLeak50(rp.Input)
 	case "gaps":
 		replayGaps(rp.Input)
+	case "syncsteps":
+		replaySyncSteps(rp.Input)
 	case "staleopen":
 		replayStaleOpen(rp.Input)
 	case "collector":
@@ -137,6 +139,7 @@ func main() {
 	sectionRecycle29(rng.Fork("recycle29"))
 	sectionStale41()
 	sectionStaleOpen()
+	sectionSyncSteps(rng.Fork("syncsteps"))
 	sectionLeak50()
 	<-unitDone
 	res.Write(args.Out)
